@@ -64,6 +64,11 @@ def gen(tier, seed, info):
             if rnd.random() < 0.7:
                 n, p = rnd_prog(rnd, nl, nc)
                 prs.append("PR %d %d %s" % (w, n, p))
+        # handlers that bracket their drawing in savepen / save ... restore (all of it, or every call)
+        if rnd.random() < 0.35:
+            for w in range(0, sh.next_id):
+                if rnd.random() < 0.6:
+                    prs.append("BR %d %d" % (w, rnd.choice([1, 1, 2, 3, 4, 4, 5, 7])))
         case = wingen.header(rnd, nl, nc) + " " + " ".join(prs + ops) + " F"
         for k in wingen.op_kinds(case):
             kinds[k] = kinds.get(k, 0) + 1
@@ -89,6 +94,37 @@ def gen(tier, seed, info):
                 d.insert(0, "p")
             prs.append("PR %d %d %s" % (w, len(d), " ".join(d)))
         yield wingen.header(rnd, nl, nc) + " " + " ".join(prs + ops) + " F EA 0 F"
+    # handlers that flush the root from inside the outer flush (after damaging something), and windows that
+    # move themselves from inside their own expose handler (and expose the old and new area)
+    nre = 2500 if tier == "quick" else 80000
+    for k in range(nre):
+        nl, nc = rnd.randint(3, 6), rnd.randint(4, 9)
+        ops, sh = wingen.history(rnd, nl, nc, rnd.randint(3, 14), PROFILE)
+        prs, ras = [], []
+        ids = list(range(0, sh.next_id))
+        for w in ids:
+            if rnd.random() < 0.5:
+                n, p = rnd_prog(rnd, nl, nc)
+                prs.append("PR %d %d %s" % (w, n, p))
+        if k % 2 == 0:
+            for w in ids:
+                if rnd.random() < 0.45:
+                    acts = []
+                    for _k in range(rnd.randint(1, 2)):
+                        tgt = rnd.choice(ids)
+                        if rnd.random() < 0.5:
+                            acts.append("ea %d" % tgt)
+                        else:
+                            acts.append("ex %d %d %d %d %d" % (tgt, rnd.randint(-1, nl), rnd.randint(-1, nc), rnd.randint(1, nl), rnd.randint(1, nc)))
+                    acts.append("fl 0")
+                    ras.append("RA %d %d %s" % (w, len(acts), " ".join(acts)))
+        else:
+            movers = [w for w in ids if w != 0]
+            if movers:
+                w = rnd.choice(movers)
+                ras.append("RA %d 1 rg %d %d %d %d %d" % (w, w, rnd.randint(-1, nl - 1), rnd.randint(-2, nc - 1), rnd.randint(1, nl), rnd.randint(1, nc)))
+        yield wingen.header(rnd, nl, nc) + " " + " ".join(prs + ras + ops) + " F EA 0 F"
+    info["nested_flush_and_selfmove_cases"] = nre
     info["line_grid_cases"] = nline
     # scattered damage: more than six small disjoint exposes (no two touching) before one flush, hostile programs, and no
     # restack anywhere, so that the oracle can demand that every rectangle handed to the root was damage
